@@ -435,6 +435,22 @@ func (p *Proxy) handleConnectRequest(ctx *Context, req *http.Request, session *S
 			log.Errorf("martian: failed to copy CONNECT tunnel: %v", err)
 		}
 
+		// Propagate end-of-stream: flush what is buffered and shut down the write
+		// side of the destination so that its peer observes EOF right away, while
+		// the opposite direction keeps flowing until that peer is done as well.
+		var dst net.Conn = conn
+		if w == io.Writer(cbw) {
+			dst = cconn
+		}
+		if f, ok := w.(interface{ Flush() error }); ok {
+			f.Flush()
+		}
+		if cw, ok := dst.(interface{ CloseWrite() error }); ok {
+			cw.CloseWrite()
+		} else {
+			dst.Close()
+		}
+
 		log.Debugf("martian: CONNECT tunnel finished copying")
 		donec <- true
 	}
